@@ -47,6 +47,20 @@ def import_repo():
     return dendropy
 
 
+def is_library_exception(exc):
+    """True iff the exception was raised by a frame of the library under test ($DENDROPY_REPO/src), as opposed to the
+    harness's own code (a harness bug must end as exit 2, never as a VIOLATION)"""
+    tb = exc.__traceback__
+    last = None
+    while tb is not None:
+        last = tb
+        tb = tb.tb_next
+    if last is None:
+        return False
+    fn = os.path.realpath(last.tb_frame.f_code.co_filename)
+    return fn.startswith(os.path.realpath(os.path.join(REPO, "src")) + os.sep)
+
+
 class Timeout(BaseException):
     """raised by time_limit; BaseException so that `except Exception` in the library cannot swallow it"""
 
